@@ -13,8 +13,16 @@ Fixpoint pow_mod_pos (a : Z) (e : positive) (m : Z) : Z :=
   | xI e' => let t := pow_mod_pos a e' m in (((t * t) mod m) * a) mod m
   end.
 
+(* extended Euclid: invariant a = x0 * A and b = x1 * A (mod m) for the input A *)
+Fixpoint egcd (fuel : nat) (a b x0 x1 : Z) : Z :=
+  match fuel with
+  | O => 0
+  | S f => if b =? 0 then x0
+           else let q := a / b in egcd f b (a - q * b) x1 (x0 - q * x1)
+  end.
+
 Definition zr_inv (a : Z) : Z :=
-  if a =? 0 then 0 else pow_mod_pos a (Z.to_pos (r_mod - 2)) r_mod.
+  if a =? 0 then 0 else (egcd 800 r_mod (a mod r_mod) 0 1) mod r_mod.
 
 Definition Zr : FieldOps := {|
   car := Z;
